@@ -1030,6 +1030,14 @@ namespace bloch::runtime {
                     rc->destructorDecl = dtor;
                 }
             }
+            // An overload bucket may have reallocated while later members were added, so
+            // take the dispatch-table addresses only now that the buckets are complete.
+            for (auto& bucket : rc->methods) {
+                for (auto& m : bucket.second) {
+                    if (m.isVirtual || m.isOverride)
+                        rc->vtable[m.signature] = &m;
+                }
+            }
             if (rc->staticStorage.size() < rc->staticFields.size())
                 rc->staticStorage.resize(rc->staticFields.size());
         }
@@ -1152,6 +1160,13 @@ namespace bloch::runtime {
             } else if (auto dtor = dynamic_cast<DestructorDeclaration*>(member.get())) {
                 rc->hasDestructor = true;
                 rc->destructorDecl = dtor;
+            }
+        }
+        // See buildClassTable: dispatch-table addresses are taken once buckets are complete.
+        for (auto& bucket : rc->methods) {
+            for (auto& m : bucket.second) {
+                if (m.isVirtual || m.isOverride)
+                    rc->vtable[m.signature] = &m;
             }
         }
         if (rc->staticStorage.size() < rc->staticFields.size())
